@@ -322,3 +322,19 @@ func (d *verifDumper) node(n Node) {
 		fmt.Fprintf(d.b, "(unknown-node %T)", n)
 	}
 }
+
+// VerifBlockTable lists a template's effective block table: "name\x00definingTemplate\x00line"
+// per entry, sorted by name.
+func VerifBlockTable(t *Template) []string {
+	names := make([]string, 0, len(t.processedBlocks))
+	for k := range t.processedBlocks {
+		names = append(names, k)
+	}
+	sort.Strings(names)
+	out := make([]string, 0, len(names))
+	for _, k := range names {
+		blk := t.processedBlocks[k]
+		out = append(out, fmt.Sprintf("%s\x00%s\x00%d", k, blk.TemplatePath, blk.Line))
+	}
+	return out
+}
